@@ -179,11 +179,83 @@ def step_guard_wiring(ctx, rule: str = "C03.step-guard") -> None:
             ctx.rep.inconclusive(rule, f"commands.{name}", "expected one validator call")
             continue
         b = fv.bind_args(sites[0]) or {}
-        t = fv.res.resolve(b["max_volume"], sites[0].node) if "max_volume" in b else None
-        ok = t is not None and any(isinstance(s, ast.Name) and s.id == "max_volume" for s in ast.walk(t))
-        bad_const = t is not None and isinstance(t, ast.Constant)
-        ctx.rep.check(ok and not bad_const, rule, f"commands.{name}->validator/max_volume", "max_volume parameter is forwarded",
-                      f"validator receives max_volume=`{show(t) if t is not None else 'omitted'}`: the caller's limit is not enforced", where=f.where(sites[0].call))
+        c = f"commands.{name}->validator/max_volume"
+        if "max_volume" not in b:
+            ctx.rep.refuted(rule, c, "validator is called without max_volume: the caller's limit is not enforced", where=f.where(sites[0].call))
+            continue
+        verdict, detail = _limit_passthrough(fv, b["max_volume"], sites[0].node, "max_volume")
+        if verdict is None:
+            ctx.rep.inconclusive(rule, c, detail, where=f.where(sites[0].call))
+        else:
+            ctx.rep.check(verdict, rule, c, detail, detail, where=f.where(sites[0].call))
+
+
+LOOSENING = {"fmax", "max", "maximum", "nanmax", "amax"}
+TIGHTENING = {"fmin", "min", "minimum", "nanmin", "amin"}
+
+
+def _limit_passthrough(fv, expr: ast.AST, at: int, param: str, depth: int = 0):
+    """Is `expr` (evaluated at node `at`) the caller's limit `param`, replaced only where no limit was given (NaN / None)?
+    -> (True|False|None, detail)"""
+    if depth > 4:
+        return None, "definition chain of the limit is too deep"
+    if isinstance(expr, ast.Name):
+        defs = sorted(fv.cfg.reaching()[at].get(expr.id, ()))
+        if not defs:
+            return None, f"`{expr.id}` has no reaching definition"
+        notes = []
+        for d in defs:
+            dn = fv.cfg.nodes[d]
+            if dn.kind != "stmt":
+                if expr.id == param:
+                    notes.append("the parameter itself")
+                    continue
+                return None, f"`{expr.id}` is bound by {dn.kind}"
+            st = dn.ast
+            if isinstance(st, ast.Assign) and len(st.targets) == 1 and isinstance(st.targets[0], ast.Name):
+                absent = False
+                for r, pol, br in fv.atoms_at(d):
+                    if pol and isinstance(r, ast.Call) and call_fname(r) in ("isnan",) and r.args and is_name(r.args[0], param):
+                        absent = True
+                    if pol and isinstance(r, ast.Compare) and len(r.ops) == 1 and isinstance(r.ops[0], ast.Is) and is_name(r.left, param) \
+                            and isinstance(r.comparators[0], ast.Constant) and r.comparators[0].value is None:
+                        absent = True
+                if absent:
+                    notes.append(f"`{stmt_key(st)[:50]}` only where no limit was given")
+                    continue
+                v, why = _limit_passthrough(fv, st.value, d, param, depth + 1)
+                if v is not True:
+                    return v, why
+                notes.append(why)
+            else:
+                return None, f"`{expr.id}` is bound by `{stmt_key(st)[:60]}`"
+        return True, "validator receives " + "; ".join(notes)
+    if isinstance(expr, ast.IfExp):
+        rt = fv.res.resolve(expr.test, at)
+        core, pol = rt, True
+        while isinstance(core, ast.UnaryOp) and isinstance(core.op, ast.Not):
+            core, pol = core.operand, not pol
+        if isinstance(core, ast.Call) and call_fname(core) == "isnan" and core.args and is_name(core.args[0], param):
+            keep = expr.orelse if pol else expr.body
+            return _limit_passthrough(fv, keep, at, param, depth + 1)
+        if isinstance(core, ast.Compare) and len(core.ops) == 1 and isinstance(core.ops[0], (ast.Is, ast.IsNot)) and is_name(core.left, param):
+            is_none = isinstance(core.ops[0], ast.Is) == pol
+            keep = expr.orelse if is_none else expr.body
+            return _limit_passthrough(fv, keep, at, param, depth + 1)
+        return None, f"limit chosen by `{show(rt)[:60]}`"
+    if isinstance(expr, ast.Call):
+        fn = call_fname(expr)
+        mentions = any(isinstance(x, ast.Name) and x.id == param for x in ast.walk(expr))
+        if fn == "float" and len(expr.args) == 1:
+            return _limit_passthrough(fv, expr.args[0], at, param, depth + 1)
+        if fn in LOOSENING and mentions:
+            return False, f"validator receives `{show(expr)[:70]}`: a limit below the other operand is raised to it, so steps above the caller's max_volume pass"
+        if fn in TIGHTENING and mentions:
+            return True, f"validator receives `{show(expr)[:70]}` (never above the caller's limit)"
+        return None, f"validator receives `{show(expr)[:70]}`: cannot relate it to the caller's max_volume"
+    if isinstance(expr, ast.Constant):
+        return False, f"validator receives the constant `{show(expr)}`: the caller's limit is not enforced"
+    return None, f"validator receives `{show(expr)[:70]}`: cannot relate it to the caller's max_volume"
 
 
 def step_guard_evo(ctx, rule: str = "C03.step-guard") -> None:
